@@ -116,7 +116,21 @@ class Broker:
         rebalancing.trades = rebalancing.make_trades(self)
         for trade in rebalancing.trades:
             self.transact(trade)
-        rebalancing.context_post = self.context()
+        try:
+            rebalancing.context_post = self.context()
+        except EndOfEpisodeError:
+            # The costs of the trades exhausted the account. The trades have
+            # been executed: record them before signalling the end of the
+            # episode (weights over a non-positive NLV are not defined).
+            rebalancing.context_post = Context(
+                nlv=self.net_liquidation_value(raise_if_broke=False),
+                weights=dict(),
+                values=self.holdings_values(),
+                nr_contracts=self.holdings_quantity,
+                margins=self.holdings_margins,
+            )
+            self.track_record._checkpoint(rebalancing)
+            raise
         self.track_record._checkpoint(rebalancing)
 
     def transact(self, trade: Trade):
